@@ -3,6 +3,8 @@ package main
 import (
 	"fmt"
 	"go/token"
+	"go/types"
+	"sort"
 	"strings"
 
 	"golang.org/x/tools/go/ssa"
@@ -10,7 +12,7 @@ import (
 
 func init() {
 	register("C01",
-		"Decides structural necessary conditions of the FIFO contract of UnsafeLinkBuffer, not the byte values: (R1) in every size-taking Reader method nothing is mutated before the Len() < n test has failed (a short read consumes nothing); (R2) every method that advances a node's read offset first subtracts from the atomic length through recalLen with a negated count, and every method that makes bytes readable (Flush, bookAck, WriteBuffer) adds through recalLen; (R3) the length has a single writer set (recalLen, Close, the fresh Slice reader, the donor reset) and the Peek cache is invalidated inside recalLen on every negative delta; (R4) every nil-returning path of MallocAck stores the malloc offset of the node the write cursor ends on (bytes discarded by MallocAck(0) do not become readable); (R5) a node's Malloc is reached only after growth() (which leaves on a managed node with room, or a fresh one) or from book(). Not decided: which bytes are returned, order, exactly-once, Len/MallocLen values, node-boundary arithmetic, Append/Slice content - value properties of a linked structure that need shape analysis plus arithmetic.",
+		"Decides structural necessary conditions of the FIFO contract of UnsafeLinkBuffer, not the byte values: (R1) in every size-taking Reader method nothing is mutated before the Len() < n test has failed (a short read consumes nothing); (R2) every method that advances a node's read offset first subtracts from the atomic length through recalLen with a negated count, and every method that makes bytes readable (Flush, bookAck, WriteBuffer) adds through recalLen; (R3) the length has a single writer set (recalLen, Close, the fresh Slice reader, the donor reset) and the Peek cache is invalidated inside recalLen on every negative delta; (R4) every nil-returning path of MallocAck stores the malloc offset of the node the write cursor ends on (bytes discarded by MallocAck(0) do not become readable); (R5) a node's Malloc is reached only after growth() (which leaves on a managed node with room, or a fresh one) or from book(); (R6) the reader side never reads the writer's cursor (it stops at flush), and Append links the donor chain from the donor's read cursor; (R7, shared with C02) Slice nodes pin the root block by its reference count. Not decided: which bytes are returned, order, exactly-once, Len/MallocLen values, node-boundary arithmetic, Append/Slice content - value properties of a linked structure that need shape analysis plus arithmetic.",
 		[]string{"single reader / single writer per buffer (API contract)"},
 		func(r *Run) {
 			cfgs := []string{"linux"}
@@ -480,4 +482,85 @@ func c01(r *Run) {
 		r.Visited += ss.Visited
 		r.obW("C01.R5:growth-skips-unmanaged", "growth() returns only with the write cursor on a node it has seen to be managed, or on a freshly created one: caller-owned memory (WriteBinary / WriteDirect nodes) is never handed out for writing", growth, nil, wit, "exit guarded by getFlag(flagUnmanaged)==false or preceded by newLinkBufferNode")
 	}
+	// ---- R6 the reader stops at the published boundary; Append splices from the donor's read cursor ----
+	{
+		rd := w.NamedType("Reader").Underlying().(*types.Interface)
+		side := map[*ssa.Function]bool{}
+		var work []*ssa.Function
+		add := func(f *ssa.Function) {
+			if f != nil && !side[f] {
+				side[f] = true
+				work = append(work, f)
+			}
+		}
+		for i := 0; i < rd.NumMethods(); i++ {
+			add(w.Fn("(*UnsafeLinkBuffer)." + rd.Method(i).Name()))
+		}
+		add(w.Fn("(*UnsafeLinkBuffer).readCopy"))
+		for len(work) > 0 {
+			f := work[0]
+			work = work[1:]
+			forEachIns(f, func(i ssa.Instruction) {
+				if _, isDefer := i.(*ssa.Defer); isDefer {
+					return
+				}
+				c := calleeOf(i)
+				if c == nil || c.Signature.Recv() == nil || len(f.Params) == 0 {
+					return
+				}
+				if args := callCommon(i).Args; len(args) > 0 && args[0] == f.Params[0] && strings.HasPrefix(w.FnName(c), "(*UnsafeLinkBuffer).") {
+					add(c)
+				}
+			})
+		}
+		if len(side) < 10 {
+			r.absentf(" C01: only %d reader-side functions found", len(side))
+		}
+		var names []string
+		for f := range side {
+			names = append(names, w.FnName(f))
+		}
+		sort.Strings(names)
+		for _, name := range names {
+			f := w.MustFn(name)
+			var bad ssa.Instruction
+			forEachIns(f, func(i ssa.Instruction) {
+				u, ok := i.(*ssa.UnOp)
+				if !ok || u.Op != token.MUL || bad != nil {
+					return
+				}
+				if tn, fld, base, ok := fieldOf(u.X); ok && tn == "UnsafeLinkBuffer" && fld == "write" && len(f.Params) > 0 && base == f.Params[0] {
+					bad = i
+				}
+			})
+			r.ob("C01.R6:reader-stops-at-flush:"+f.Name(), "the reader side (Reader methods, the copying read and their helpers) walks the chain up to the published boundary (flush) and by the length only; it never consults the writer's cursor of its own buffer - bytes behind flush are not readable yet", f, bad, bad == nil, "no load of b.write", false)
+		}
+		// Append: the chain linked behind the write cursor starts at the donor's read cursor (the nodes in
+		// front of it hold consumed bytes: Skip/Next do not empty the nodes they pass)
+		wb := bufMethod(w, "WriteBuffer")
+		n := 0
+		forEachIns(wb, func(i ssa.Instruction) {
+			st, ok := i.(*ssa.Store)
+			if !ok || !isStoreToField(i, "linkBufferNode", "next") {
+				return
+			}
+			_, _, base, _ := fieldOf(st.Addr)
+			if _, isW := loadOfField(base, "UnsafeLinkBuffer", "write"); !isW {
+				return
+			}
+			if c, isC := st.Val.(*ssa.Const); isC && c.IsNil() {
+				return
+			}
+			n++
+			src, fromRead := loadOfField(st.Val, "UnsafeLinkBuffer", "read")
+			okv := fromRead && len(wb.Params) > 1 && src == wb.Params[1]
+			r.ob("C01.R6:append-splices-from-read-cursor:"+siteKey(w, i), "Append links the donor's chain starting at the donor's read cursor: consumed bytes in front of it do not become readable again", wb, i, okv, "b.write.next = buf.read", true)
+		})
+		if n == 0 {
+			r.absentf(" C01: WriteBuffer links nothing behind the write cursor")
+		}
+	}
+	// R7: a block that is still being read must not be recycled under the reader (borrowed reference-count rules)
+	r.borrow([]string{"C02.R5:Refer-counts", "C02.R5:Refer-links", "C02.R5:child-releases-root", "C02.R5:free-when-last"}, "C02.R5", "C01.R7", func() { c02(r) })
+
 }
